@@ -50,6 +50,10 @@ Reached == {s[1] : s \in Fix({<<1, remoteRoot>>})}
 \* must offer = those reached without relying on the silent case
 Offered == Reached
 MustOffer == {s[1] : s \in FixL({<<1, remoteRoot>>}, FALSE)}
+\* ... of which the ones reached over local files only (whether a network
+\* location answers in time is not the library's doing: "unreachable basins
+\* make their features unavailable")
+MustOfferLocal == {1} \cup {s[1] : s \in {t \in FixL({<<1, remoteRoot>>}, FALSE) : ~t[2]}}
 
 Init == /\ rid \in [Nodes -> Rids]
         /\ edge \in [Nodes -> [Nodes -> EdgeKinds]]
@@ -65,5 +69,6 @@ NoLocalBelowRemote ==
                 ~t[2] /\ edge[t[1]][s[1]] \in {"file", "filemapped"}
 
 Emit == PrintT(<<"H", ToJson([rid |-> rid, edge |-> edge, remoteRoot |-> remoteRoot,
-                              offered |-> Offered, must |-> MustOffer])>>)
+                              offered |-> Offered, must |-> MustOffer,
+                              mustlocal |-> MustOfferLocal])>>)
 =============================================================================
